@@ -243,14 +243,21 @@ where
     }
 }
 
-/// Constructs the inclusions to the kernel procedure table.
+/// Constructs the inclusions to the kernel procedure table: every kernel procedure is included
+/// once, at the first row of the kernel ROM trace which carries it (i.e., at the first kernel ROM
+/// row and whenever the kernel ROM's address column changes).
 fn chiplets_kernel_table_include<E>(main_trace: &MainTrace, alphas: &[E], row: usize) -> E
 where
     E: FieldElement<BaseField = Felt>,
 {
-    if main_trace.is_kernel_row(row) && main_trace.is_addr_change(row) {
+    let is_first_row_of_proc = main_trace.is_kernel_row(row)
+        && (row == 0
+            || !main_trace.is_kernel_row(row - 1)
+            || main_trace.chiplet_kernel_addr(row - 1) != main_trace.chiplet_kernel_addr(row));
+
+    if is_first_row_of_proc {
         alphas[0]
-            + alphas[1].mul_base(main_trace.addr(row))
+            + alphas[1].mul_base(main_trace.chiplet_kernel_addr(row))
             + alphas[2].mul_base(main_trace.chiplet_kernel_root_0(row))
             + alphas[3].mul_base(main_trace.chiplet_kernel_root_1(row))
             + alphas[4].mul_base(main_trace.chiplet_kernel_root_2(row))
